@@ -832,7 +832,7 @@ func NewRoleTree(rw *RoleWorld) *RoleTree { return &RoleTree{Tree: NewTree(rw.Wo
 // operations plus nOps random ones, classified with core.
 func (t *RoleTree) Add(parent int, rng *rand.Rand, nOps int, script []string, tsOffset int, corrupt string) *Node {
 	p := t.Node(parent)
-	n := &Node{ID: len(t.Nodes) + 1, Parent: parent, Height: p.Height + 1}
+	n := &Node{ID: len(t.Nodes) + 1, Parent: parent, Height: p.Height + 1, Alias: len(t.Nodes) + 1}
 	var blk types.Block
 	if p.L != nil {
 		bld := NewRoleBuilder(t.RW, p.L, rng)
